@@ -11,6 +11,10 @@ from . import model
 from .model import MT
 
 
+# whitespace of the bracket formats is ASCII whitespace (string.whitespace); U+00A0 etc. are word characters
+_WS = ' \t\n\r\x0b\x0c'
+
+
 class DecodeError(Exception):
     pass
 
@@ -291,13 +295,13 @@ def encode_brackets(mts, layout='tight', empty_root=False, emptypos=False, trail
 def _lex_brackets(text):
     """Tokenizer of bracketed text: list of ('(',) (')',) ('ws', s) ('tok', s)."""
     out = []
-    for m in re.finditer(r'\(|\)|\s+|[^\s()]+', text):
+    for m in re.finditer(r'\(|\)|[%s]+|[^%s()]+' % (_WS, _WS), text):
         s = m.group(0)
         if s == '(':
             out.append(('(', s))
         elif s == ')':
             out.append((')', s))
-        elif s.isspace():
+        elif s[0] in _WS:
             out.append(('ws', s))
         else:
             out.append(('tok', s))
@@ -318,12 +322,12 @@ def decode_brackets_line(line, disco=False):
         if pos >= n or line[pos] != '(':
             raise DecodeError('expected ( at column %d of %r' % (pos, line))
         pos += 1
-        m = re.compile(r'[^\s()]*').match(line, pos)
+        m = re.compile(r'[^%s()]*' % _WS).match(line, pos)
         label = m.group(0)
         pos = m.end()
         if pos < n and line[pos] == ' ':
             pos += 1
-            m = re.compile(r'[^\s()]+').match(line, pos)
+            m = re.compile(r'[^%s()]+' % _WS).match(line, pos)
             if not m:
                 raise DecodeError('expected a word at column %d of %r' % (pos, line))
             word = m.group(0)
@@ -370,7 +374,7 @@ def decode_discobrackets(text):
             raise DecodeError('expected exactly one tab in %r' % ln)
         tree, sent = ln.split('\t')
         words = sent.split(' ')
-        if any(w == '' or re.search(r'[\s()]', w) for w in words):
+        if any(w == '' or re.search(r'[%s()]' % _WS, w) for w in words):
             raise DecodeError('sentence part %r has empty tokens, whitespace or parentheses' % sent)
         root, toks = decode_brackets_line(tree)
         idx = []
